@@ -435,7 +435,8 @@ class BitArray(Bits):
         """
         if pos is None:
             # Set all bits to either 1 or 0
-            self._setint(-1 if value else 0)
+            if len(self):
+                self._setint(-1 if value else 0)
             return
         if not isinstance(pos, abc.Iterable):
             pos = (pos,)
